@@ -16,6 +16,7 @@ package disruption
 import (
 	"context"
 	"fmt"
+	"os"
 	"reflect"
 	"sort"
 	"strconv"
@@ -27,8 +28,11 @@ import (
 	storagev1 "k8s.io/api/storage/v1"
 	metav1 "k8s.io/apimachinery/pkg/apis/meta/v1"
 
+	autoscalingv1beta1 "sigs.k8s.io/karpenter/pkg/apis/autoscaling/v1beta1"
+	v1 "sigs.k8s.io/karpenter/pkg/apis/v1"
 	kdisruption "sigs.k8s.io/karpenter/pkg/controllers/disruption"
 	pscheduling "sigs.k8s.io/karpenter/pkg/controllers/provisioning/scheduling"
+	"sigs.k8s.io/karpenter/pkg/state/virtualpods"
 
 	"verif/harness/trace"
 	"verif/harness/world"
@@ -85,17 +89,51 @@ func candPods(c *kdisruption.Candidate) []*corev1.Pod {
 // Karpenter sorts that slice by weight in place whenever it computes a pod's requirements (scheduling.NewPodRequirements),
 // also on the candidates' pod objects.  The abstraction therefore orders the terms canonically; everything else
 // (which terms exist, their weights and contents, every other field of the pod) is compared as is.
+//
+// Likewise a spread constraint's matchLabelKeys MEAN "labelSelector AND key In [the pod's value]" (the API server of newer
+// Kubernetes versions merges them itself); Karpenter's Topology.newForTopologies appends exactly those expressions to the
+// pod's selector object in place on every Update, so the selector of a long-lived pod object grows by duplicates.  The
+// abstraction drops the expressions that matchLabelKeys already imply.
 func normPod(p *corev1.Pod) *corev1.Pod {
-	if p == nil || p.Spec.Affinity == nil || p.Spec.Affinity.NodeAffinity == nil ||
-		len(p.Spec.Affinity.NodeAffinity.PreferredDuringSchedulingIgnoredDuringExecution) < 2 {
+	if p == nil || os.Getenv("VERIF_FRAME_RAW") != "" { // VERIF_FRAME_RAW=1 (diagnosis): no quotient, shows what HEAD does to the pod objects
+		return p
+	}
+	manyPrefs := p.Spec.Affinity != nil && p.Spec.Affinity.NodeAffinity != nil &&
+		len(p.Spec.Affinity.NodeAffinity.PreferredDuringSchedulingIgnoredDuringExecution) >= 2
+	keys := false
+	for _, t := range p.Spec.TopologySpreadConstraints {
+		keys = keys || (len(t.MatchLabelKeys) > 0 && t.LabelSelector != nil)
+	}
+	if !manyPrefs && !keys {
 		return p
 	}
 	c := p.DeepCopy()
-	pr := c.Spec.Affinity.NodeAffinity.PreferredDuringSchedulingIgnoredDuringExecution
-	key := func(t corev1.PreferredSchedulingTerm) string {
-		return fmt.Sprintf("%010d|%s", 1<<30-int(t.Weight), world.Digest(t))
+	if manyPrefs {
+		pr := c.Spec.Affinity.NodeAffinity.PreferredDuringSchedulingIgnoredDuringExecution
+		key := func(t corev1.PreferredSchedulingTerm) string {
+			return fmt.Sprintf("%010d|%s", 1<<30-int(t.Weight), world.Digest(t))
+		}
+		sort.SliceStable(pr, func(i, j int) bool { return key(pr[i]) < key(pr[j]) })
 	}
-	sort.SliceStable(pr, func(i, j int) bool { return key(pr[i]) < key(pr[j]) })
+	for i := range c.Spec.TopologySpreadConstraints {
+		t := &c.Spec.TopologySpreadConstraints[i]
+		if len(t.MatchLabelKeys) == 0 || t.LabelSelector == nil {
+			continue
+		}
+		var keep []metav1.LabelSelectorRequirement
+		for _, e := range t.LabelSelector.MatchExpressions {
+			implied := false
+			for _, k := range t.MatchLabelKeys {
+				if v, ok := c.Labels[k]; ok && e.Key == k && e.Operator == metav1.LabelSelectorOpIn && len(e.Values) == 1 && e.Values[0] == v {
+					implied = true
+				}
+			}
+			if !implied {
+				keep = append(keep, e)
+			}
+		}
+		t.LabelSelector.MatchExpressions = keep
+	}
 	return c
 }
 
@@ -120,7 +158,18 @@ func (s *sim) frameSnap(phase, call string) {
 	// a method may sort the candidate slice it is handed (sortCandidates): the SET of candidates is what is compared
 	sort.SliceStable(cands.Items, func(i, j int) bool { return cands.Items[i].Key < cands.Items[j].Key })
 	sort.SliceStable(cpods.Items, func(i, j int) bool { return cpods.Items[i].Key < cpods.Items[j].Key })
-	ev := s.w.Snapshot(s.cluster, cands, cpods)
+	// the CapacityBuffer virtual pods live in a cache shared by every pass and simulation (GetAll hands out the cached objects):
+	// hydrate it (lazy on first use) and make the cached pod objects a section of their own
+	vpods := world.SnapExtra{Name: "virtualPods"}
+	if s.sc.Options.CapacityBuffer {
+		if vc := s.virtualCache(); vc != nil {
+			for _, p := range vc.GetAll(s.ctx) {
+				vpods.Items = append(vpods.Items, world.SnapItem{Key: podKey(p), Val: normPod(p)})
+			}
+			sort.SliceStable(vpods.Items, func(i, j int) bool { return vpods.Items[i].Key < vpods.Items[j].Key })
+		}
+	}
+	ev := s.w.Snapshot(s.cluster, cands, cpods, vpods)
 	ev["phase"], ev["call"], ev["n"] = phase, call, st.n
 	s.w.Emit(ev)
 }
@@ -278,6 +327,41 @@ func (s *sim) frameDecoratePod(pod *corev1.Pod, p *PodSpec) {
 			} else {
 				pod.Spec.Affinity.NodeAffinity.RequiredDuringSchedulingIgnoredDuringExecution = &corev1.NodeSelector{NodeSelectorTerms: []corev1.NodeSelectorTerm{term}}
 			}
+		case "requireZones": // several required OR-terms, tried in this order ("zone-x|zone-a": the first one cannot be met)
+			if pod.Spec.Affinity == nil {
+				pod.Spec.Affinity = &corev1.Affinity{}
+			}
+			if pod.Spec.Affinity.NodeAffinity == nil {
+				pod.Spec.Affinity.NodeAffinity = &corev1.NodeAffinity{}
+			}
+			sel := &corev1.NodeSelector{}
+			for _, z := range strings.Split(v, "|") {
+				sel.NodeSelectorTerms = append(sel.NodeSelectorTerms, corev1.NodeSelectorTerm{MatchExpressions: []corev1.NodeSelectorRequirement{
+					{Key: corev1.LabelTopologyZone, Operator: corev1.NodeSelectorOpIn, Values: []string{z}}}})
+			}
+			pod.Spec.Affinity.NodeAffinity.RequiredDuringSchedulingIgnoredDuringExecution = sel
+		case "prefAntiAffinity", "prefAffinity": // preferred pod (anti-)affinity, two terms of different weight
+			if pod.Spec.Affinity == nil {
+				pod.Spec.Affinity = &corev1.Affinity{}
+			}
+			terms := []corev1.WeightedPodAffinityTerm{
+				{Weight: 1, PodAffinityTerm: corev1.PodAffinityTerm{TopologyKey: corev1.LabelTopologyZone, LabelSelector: &metav1.LabelSelector{MatchLabels: map[string]string{"app": v}}}},
+				{Weight: 7, PodAffinityTerm: corev1.PodAffinityTerm{TopologyKey: corev1.LabelHostname, LabelSelector: &metav1.LabelSelector{MatchLabels: map[string]string{"app": v}}}}}
+			if k == "prefAntiAffinity" {
+				pod.Spec.Affinity.PodAntiAffinity = &corev1.PodAntiAffinity{PreferredDuringSchedulingIgnoredDuringExecution: terms}
+			} else {
+				pod.Spec.Affinity.PodAffinity = &corev1.PodAffinity{PreferredDuringSchedulingIgnoredDuringExecution: terms}
+			}
+		case "spreadKeys": // DoNotSchedule zonal spread (generous skew) over app=<v> with matchLabelKeys [rev]
+			if pod.Labels == nil {
+				pod.Labels = map[string]string{}
+			}
+			if pod.Labels["rev"] == "" {
+				pod.Labels["rev"] = "1"
+			}
+			pod.Spec.TopologySpreadConstraints = append(pod.Spec.TopologySpreadConstraints, corev1.TopologySpreadConstraint{MaxSkew: 6,
+				TopologyKey: corev1.LabelTopologyZone, WhenUnsatisfiable: corev1.DoNotSchedule, MatchLabelKeys: []string{"rev"},
+				LabelSelector: &metav1.LabelSelector{MatchLabels: map[string]string{"app": v}}})
 		case "antiAffinity":
 			if pod.Spec.Affinity == nil {
 				pod.Spec.Affinity = &corev1.Affinity{}
@@ -312,4 +396,59 @@ func (s *sim) frameStorage(ns, claim string) {
 		s.w.EnvCreate(&corev1.PersistentVolumeClaim{ObjectMeta: metav1.ObjectMeta{Name: claim, Namespace: ns},
 			Spec: corev1.PersistentVolumeClaimSpec{StorageClassName: &scName}})
 	}
+}
+
+// frameDecoratePool applies PoolSpec.Ext: preferNoSchedule=<v> puts the taint soft=<v>:PreferNoSchedule on the pool template
+// (the scheduler then adds a blanket PreferNoSchedule toleration as the LAST relaxation of a pod that does not fit otherwise).
+func (s *sim) frameDecoratePool(np *v1.NodePool, p *PoolSpec) {
+	for k, v := range p.Ext {
+		switch k {
+		case "preferNoSchedule":
+			np.Spec.Template.Spec.Taints = append(np.Spec.Template.Spec.Taints, corev1.Taint{Key: "soft", Value: v, Effect: corev1.TaintEffectPreferNoSchedule})
+		default:
+			panic(fmt.Sprintf("unknown pool ext %q", k))
+		}
+	}
+}
+
+// virtualCache: the provisioner's virtual-pod cache (unexported field, read by reflection).
+func (s *sim) virtualCache() *virtualpods.Cache {
+	f := reflect.ValueOf(s.prov).Elem().FieldByName("virtualPodCache")
+	if !f.IsValid() {
+		return nil
+	}
+	f = reflect.NewAt(f.Type(), unsafe.Pointer(f.UnsafeAddr())).Elem()
+	c, _ := f.Interface().(*virtualpods.Cache)
+	return c
+}
+
+// runCapacityBuffer: step CapacityBuffer{value: name, n: replicas, pod: template} = a PodTemplate built from the pod spec and a
+// CapacityBuffer that is ready for provisioning with n replicas (options.capacityBuffer must be on; the cache hydrates from them).
+func (s *sim) runCapacityBuffer(st Step) error {
+	if st.Pod == nil || st.Value == "" {
+		return fmt.Errorf("CapacityBuffer step needs value (name) and pod (template)")
+	}
+	tp := *st.Pod
+	tp.Node = ""
+	pod := s.mkPod(&tp)
+	ns := nsOf(st.Pod.Namespace)
+	s.w.EnvCreate(&corev1.PodTemplate{ObjectMeta: metav1.ObjectMeta{Name: st.Value, Namespace: ns},
+		Template: corev1.PodTemplateSpec{ObjectMeta: metav1.ObjectMeta{Labels: pod.Labels}, Spec: pod.Spec}})
+	n := int32(st.N)
+	if n < 1 {
+		n = 1
+	}
+	cb := &autoscalingv1beta1.CapacityBuffer{ObjectMeta: metav1.ObjectMeta{Name: st.Value, Namespace: ns},
+		Spec: autoscalingv1beta1.CapacityBufferSpec{PodTemplateRef: &autoscalingv1beta1.LocalObjectRef{Name: st.Value}, Replicas: &n}}
+	s.w.EnvCreate(cb)
+	s.w.EnvMutate(cb, "BufferStatus", func() {
+		cb.Status.Replicas = &n
+		cb.Status.PodTemplateRef = &autoscalingv1beta1.LocalObjectRef{Name: st.Value}
+		cb.Status.Conditions = []metav1.Condition{{Type: autoscalingv1beta1.ReadyForProvisioningCondition, Status: metav1.ConditionTrue,
+			Reason: "Scenario", LastTransitionTime: metav1.NewTime(s.w.Clock.Now())}}
+	})
+	if vc := s.virtualCache(); vc != nil { // what the capacity-buffer controller does on a buffer event
+		vc.UpdateEntry(cb, corev1.PodTemplateSpec{ObjectMeta: metav1.ObjectMeta{Labels: pod.Labels}, Spec: pod.Spec})
+	}
+	return nil
 }
